@@ -19,7 +19,8 @@ Record linv (L : limits) (s : state) : Prop := mkLinv {
   li_inc_le : s_nincomplete s <= max_incomplete_connections L;
   li_user_le : forall u, get_uid (s_byuser s) u <= max_connections_per_user L;
   li_rules_le : forall d, In d (s_cdata s) -> d_nrules d <= max_match_rules_per_connection L;
-  li_pend_le : forall c, n_awaiting s c <= max_replies_per_connection L
+  li_pend_le : forall c, n_awaiting s c <= max_replies_per_connection L;
+  li_auth : forall c, registered s c = true -> authenticated s c = true
 }.
 
 Lemma linv_inv L s : linv L s -> inv (reg L s).
@@ -42,6 +43,34 @@ Lemma n_registered_of_shapes s u :
   n_registered_of s u = cnt (fun p => snd p && (uidf (s_cdata s) (fst p) =? u)) (shapes (s_conns s)).
 Proof. unfold n_registered_of. rewrite <- cnt_shapes. reflexivity. Qed.
 
+Definition authf (ds : list cdata) (c : N) : bool := match find_cd ds c with Some d => d_auth d | None => false end.
+
+Lemma registered_shapes s c : registered s c = match find_shape (shapes (s_conns s)) c with Some a => a | None => false end.
+Proof. unfold registered. rewrite find_shape_conn. destruct (find_conn (s_conns s) c); reflexivity. Qed.
+Lemma connected_shapes s c : connected s c = match find_shape (shapes (s_conns s)) c with Some _ => true | None => false end.
+Proof. unfold connected. rewrite find_shape_conn. destruct (find_conn (s_conns s) c); reflexivity. Qed.
+
+Lemma find_conn_app cs x c : find_conn (cs ++ [x]) c = match find_conn cs c with Some y => Some y | None => if c_id x =? c then Some x else None end.
+Proof. induction cs as [|y cs IH]; simpl; [reflexivity|]. destruct (c_id y =? c); [reflexivity | exact IH]. Qed.
+
+Lemma find_cd_upd ds c f c' : (forall d, d_id (f d) = d_id d) ->
+  find_cd (upd_cd ds c f) c' = option_map (fun d => if d_id d =? c then f d else d) (find_cd ds c').
+Proof.
+  intros Hf. induction ds as [|y ds IH]; [reflexivity|]. simpl. destruct (d_id y =? c) eqn:E; simpl.
+  - rewrite Hf. destruct (d_id y =? c') eqn:E2; simpl; [rewrite E; reflexivity|].
+    clear IH. induction ds as [|z ds IH2]; [reflexivity|]. simpl. destruct (d_id z =? c') eqn:E3; simpl.
+    + destruct (d_id z =? c) eqn:E4; [|reflexivity]. apply N.eqb_eq in E, E3, E4. apply N.eqb_neq in E2. congruence.
+    + exact IH2.
+  - destruct (d_id y =? c') eqn:E2; simpl; [rewrite E; reflexivity | exact IH].
+Qed.
+
+Lemma find_conn_upd_other cs c f c' : (forall x, c_id (f x) = c_id x) -> c' <> c -> find_conn (upd_conn cs c f) c' = find_conn cs c'.
+Proof.
+  intros Hf Hne. induction cs as [|y cs IH]; [reflexivity|]. simpl. destruct (c_id y =? c) eqn:E; simpl.
+  - rewrite Hf. destruct (c_id y =? c') eqn:E2; [apply N.eqb_eq in E, E2; congruence | reflexivity].
+  - destruct (c_id y =? c'); [reflexivity | exact IH].
+Qed.
+
 Lemma init_linv L : linv L linit.
 Proof.
   constructor.
@@ -58,6 +87,7 @@ Proof.
   - intros u. simpl. lia.
   - intros d [].
   - intros c. unfold n_awaiting, nlen. simpl. lia.
+  - intros c H. discriminate H.
 Qed.
 
 (* ---- shapes lists ------------------------------------------------------------------------------ *)
@@ -79,6 +109,22 @@ Lemma del_shape_ne l c x : NoDup (map fst l) -> In x (del_shape l c) -> fst x <>
 Proof.
   intros N H E. apply (del_id_notin (map fst l) c N). rewrite <- fst_del_shape. apply in_map_iff. exists x. auto.
 Qed.
+
+Lemma find_shape_del l c d : d <> c -> find_shape (del_shape l c) d = find_shape l d.
+Proof.
+  intros H. induction l as [|[i a] l IH]; [reflexivity|]. simpl. destruct (i =? c) eqn:E.
+  - apply N.eqb_eq in E. subst i. destruct (c =? d) eqn:E2; [apply N.eqb_eq in E2; congruence | reflexivity].
+  - simpl. destruct (i =? d); [reflexivity | exact IH].
+Qed.
+
+Lemma find_shape_del_same l c : NoDup (map fst l) -> find_shape (del_shape l c) c = None.
+Proof.
+  intros N. destruct (find_shape (del_shape l c) c) eqn:E; [|reflexivity]. exfalso.
+  assert (G : forall l', find_shape l' c = Some b -> In c (map fst l')).
+  { induction l' as [|[i a] l' IH]; simpl; [discriminate|]. destruct (i =? c) eqn:Ei; [apply N.eqb_eq in Ei; auto | intros H; right; auto]. }
+  apply G in E. rewrite fst_del_shape in E. exact (del_id_notin _ _ N E).
+Qed.
+
 
 (* ---- per-connection data ------------------------------------------------------------------------- *)
 Lemma upd_cd_map ds c f : (forall d, d_id (f d) = d_id d) -> NoDup (cids ds) ->
@@ -197,6 +243,7 @@ Proof.
   - exact (li_user_le _ _ I).
   - exact (li_rules_le _ _ I).
   - exact (li_pend_le _ _ I).
+  - intros c Hc. rewrite registered_shapes in Hc. simpl in Hc. rewrite S in Hc. rewrite <- registered_shapes in Hc. exact (li_auth _ _ I c Hc).
 Qed.
 
 Lemma via_registry_linv L s c e :
@@ -237,7 +284,7 @@ Proof.
   cbn [step reg b_conns b_services b_next b_limit fst].
   pose proof (fresh_next L s I) as Hfresh.
   set (new := mkConn (s_next s) false false []).
-  assert (Huid : forall x, In x (s_conns s) -> uidf (s_cdata s ++ [mkCd (s_next s) uid 0]) (c_id x) = uidf (s_cdata s) (c_id x)).
+  assert (Huid : forall x, In x (s_conns s) -> uidf (s_cdata s ++ [mkCd (s_next s) uid 0 false]) (c_id x) = uidf (s_cdata s) (c_id x)).
   { intros x Hx. apply uidf_app_old. rewrite (li_ids _ _ I). unfold ids. apply in_map. exact Hx. }
   constructor; cbn [s_conns s_services s_next s_cdata s_rules s_pending s_ncomplete s_nincomplete s_byuser].
   - replace (reg L _) with (fst (step (reg L s) EvConnect)) by reflexivity. apply reg_reachable_step. exact (li_reg _ _ I).
@@ -257,6 +304,11 @@ Proof.
   - exact (li_user_le _ _ I).
   - intros d Hd. apply in_app_or in Hd. destruct Hd as [Hd|[<-|[]]]; [exact (li_rules_le _ _ I d Hd)|]. simpl. lia.
   - exact (li_pend_le _ _ I).
+  - intros c. unfold registered, authenticated. cbn [s_conns s_cdata]. rewrite find_conn_app, find_cd_app.
+    pose proof (li_auth _ _ I c) as A. unfold registered, authenticated in A.
+    destruct (find_conn (s_conns s) c) as [x|] eqn:Hf.
+    + intros Hx. specialize (A Hx). destruct (find_cd (s_cdata s) c); [exact A | discriminate A].
+    + unfold new. simpl. destruct (s_next s =? c); discriminate.
 Qed.
 
 (* ---- Hello ----------------------------------------------------------------------------------------------------------- *)
@@ -270,6 +322,7 @@ Proof.
   intros Hpos I. cbn [lstep].
   destruct (find_conn (s_conns s) c) as [cn|] eqn:Hf; [|exact I].
   destruct (find_cd (s_cdata s) c) as [d|] eqn:Hd; [|exact I].
+  destruct (d_auth d) eqn:Hau; cbn [negb]; [|exact I].
   destruct (c_active cn) eqn:Ha; [exact I|].
   destruct (max_completed_connections L <=? s_ncomplete s) eqn:E1; [exact I|]. apply N.leb_gt in E1.
   destruct (max_connections_per_user L <=? get_uid (s_byuser s) (d_uid d)) eqn:E2; [exact I|]. apply N.leb_gt in E2.
@@ -309,6 +362,10 @@ Proof.
   - intros u. rewrite get_set_uid. destruct (u =? d_uid d) eqn:Eu; [lia | exact (li_user_le _ _ I u)].
   - exact (li_rules_le _ _ I).
   - exact (li_pend_le _ _ I).
+  - intros c'. unfold registered, authenticated. cbn [s_conns s_cdata]. rewrite Hc.
+    destruct (N.eq_dec c' c) as [->|Hne].
+    + intros _. rewrite Hd. exact Hau.
+    + rewrite find_conn_upd_other by (auto; reflexivity). exact (li_auth _ _ I c').
 Qed.
 
 (* ---- disconnection (by the client or by the bus) ------------------------------------------------------------------------ *)
@@ -364,6 +421,10 @@ Proof.
   - intros x Hx. apply del_cd_in in Hx. exact (li_rules_le _ _ I x Hx).
   - intros g. unfold n_awaiting. cbn [s_pending]. pose proof (drop_pending_cnt (fun p => p_get p =? g) (s_pending s) c) as X.
     rewrite Ep in X. simpl in X. unfold cnt in X. pose proof (li_pend_le _ _ I g) as Y. unfold n_awaiting in Y. lia.
+  - intros c'. rewrite registered_shapes. cbn [s_conns]. rewrite S. unfold authenticated. cbn [s_cdata].
+    destruct (N.eq_dec c' c) as [->|Hne].
+    + rewrite find_shape_del_same by exact Nds. discriminate.
+    + rewrite find_shape_del by exact Hne. rewrite find_cd_del_other by exact Hne. rewrite <- registered_shapes. exact (li_auth _ _ I c').
 Qed.
 
 (* ---- AddMatch / RemoveMatch ------------------------------------------------------------------------------------------------ *)
@@ -371,14 +432,23 @@ Lemma linv_with_rules L s ds rl :
   linv L s -> cids ds = cids (s_cdata s) -> (forall c, uidf ds c = uidf (s_cdata s) c) ->
   (forall d, In d ds -> d_nrules d = cnt (fun e => fst e =? d_id d) rl /\ d_nrules d <= max_match_rules_per_connection L) ->
   (forall e, In e rl -> In (fst e) (ids (s_conns s))) ->
+  (forall c, authf (s_cdata s) c = true -> authf ds c = true) ->
   linv L (with_rules s ds rl).
 Proof.
-  intros I Hc Hu Hr Hl. destruct I. constructor; cbn [with_rules s_conns s_services s_next s_cdata s_rules s_pending s_ncomplete s_nincomplete s_byuser]; try assumption.
+  intros I Hc Hu Hr Hl Hau. destruct I. constructor; cbn [with_rules s_conns s_services s_next s_cdata s_rules s_pending s_ncomplete s_nincomplete s_byuser]; try assumption.
   - rewrite Hc. assumption.
   - intros u. rewrite li_user0. unfold n_registered_of, uid_of. cbn [with_rules s_conns s_cdata]. apply nlen_filter_ext. intros x _.
     pose proof (Hu (c_id x)) as E. unfold uidf in E. rewrite E. reflexivity.
   - intros d Hd. exact (proj1 (Hr d Hd)).
   - intros d Hd. exact (proj2 (Hr d Hd)).
+  - intros c Hc'. apply (Hau c). exact (li_auth0 c Hc').
+Qed.
+
+Lemma authf_upd_same ds c f c' : (forall d, d_id (f d) = d_id d) -> (forall d, d_auth d = true -> d_auth (f d) = true) ->
+  authf ds c' = true -> authf (upd_cd ds c f) c' = true.
+Proof.
+  intros Hi Ha. unfold authf. rewrite find_cd_upd by exact Hi. destruct (find_cd ds c') as [d|]; simpl; [|discriminate].
+  destruct (d_id d =? c); auto.
 Qed.
 
 Lemma addmatch_linv L s c r : linv L s -> linv L (fst (lstep L s (AddMatch c r))).
@@ -390,9 +460,9 @@ Proof.
   destruct (max_match_rules_per_connection L <=? d_nrules d) eqn:E; [exact I|]. apply N.leb_gt in E.
   destruct r as [r|]; [|exact I]. cbn [fst].
   pose proof (linv_nodup_cd L s I) as Ndc.
-  set (f := fun x : cdata => mkCd (d_id x) (d_uid x) (d_nrules x + 1)).
+  set (f := fun x : cdata => mkCd (d_id x) (d_uid x) (d_nrules x + 1) (d_auth x)).
   assert (Hdid : d_id d = c) by (apply find_cd_in in Hd; tauto).
-  apply linv_with_rules; [exact I | apply cids_upd_cd; reflexivity | intros c'; apply uidf_upd_cd; reflexivity | |].
+  apply linv_with_rules; [exact I | apply cids_upd_cd; reflexivity | intros c'; apply uidf_upd_cd; reflexivity | | | intros c'; apply authf_upd_same; auto].
   - intros y Hy. rewrite (upd_cd_map _ _ f) in Hy by (auto; reflexivity). apply in_map_iff in Hy. destruct Hy as [x [<- Hx]].
     rewrite cnt_cons. cbn [fst]. pose proof (li_nrules _ _ I x Hx) as Hn. unfold n_rules in Hn. fold (cnt (fun e => fst e =? d_id x) (s_rules s)) in Hn.
     pose proof (li_rules_le _ _ I x Hx) as Hle.
@@ -425,9 +495,9 @@ Proof.
   destruct r as [r|]; [|exact I].
   destruct (remove_rule (s_rules s) c r) as [rl|] eqn:Er; [|exact I]. cbn [fst].
   pose proof (linv_nodup_cd L s I) as Ndc.
-  set (f := fun x : cdata => mkCd (d_id x) (d_uid x) (d_nrules x - 1)).
+  set (f := fun x : cdata => mkCd (d_id x) (d_uid x) (d_nrules x - 1) (d_auth x)).
   assert (Hdid : d_id d = c) by (apply find_cd_in in Hd; tauto).
-  apply linv_with_rules; [exact I | apply cids_upd_cd; reflexivity | intros c'; apply uidf_upd_cd; reflexivity | |].
+  apply linv_with_rules; [exact I | apply cids_upd_cd; reflexivity | intros c'; apply uidf_upd_cd; reflexivity | | | intros c'; apply authf_upd_same; auto].
   - intros y Hy. rewrite (upd_cd_map _ _ f) in Hy by (auto; reflexivity). apply in_map_iff in Hy. destruct Hy as [x [<- Hx]].
     pose proof (li_nrules _ _ I x Hx) as Hn. unfold n_rules in Hn. fold (cnt (fun e => fst e =? d_id x) (s_rules s)) in Hn.
     pose proof (li_rules_le _ _ I x Hx) as Hle.
@@ -443,6 +513,13 @@ Theorem lstep_linv L s e : 1 <= max_names_per_connection L -> linv L s -> linv L
 Proof.
   intros Hpos I. destruct e.
   - apply connect_linv; assumption.
+  - cbn [lstep]. destruct (find_cd (s_cdata s) c) as [d|] eqn:Hd; [|exact I]. destruct (d_auth d); [exact I|]. cbn [fst].
+    pose proof (linv_nodup_cd L s I) as Ndc.
+    set (f := fun x : cdata => mkCd (d_id x) (d_uid x) (d_nrules x) true).
+    apply linv_with_rules; [exact I | apply cids_upd_cd; reflexivity | intros c'; apply uidf_upd_cd; reflexivity | | exact (li_rules_live _ _ I) | intros c'; apply authf_upd_same; auto].
+    intros y Hy. rewrite (upd_cd_map _ _ f) in Hy by (auto; reflexivity). apply in_map_iff in Hy. destruct Hy as [x [<- Hx]].
+    pose proof (li_nrules _ _ I x Hx) as Hn. unfold n_rules in Hn. pose proof (li_rules_le _ _ I x Hx) as Hle.
+    destruct (d_id x =? c); unfold cnt; simpl; split; assumption.
   - apply hello_linv; assumption.
   - apply disconnect_linv; assumption.
   - apply via_registry_linv; [left; eauto | assumption].
@@ -451,11 +528,16 @@ Proof.
   - apply removematch_linv; assumption.
   - cbn [lstep]. destruct (find_conn (s_conns s) c) as [cn|]; [|exact I].
     destruct (negb (c_active cn)); [apply disconnect_linv; exact I|].
-    destruct (negb (is_active s d)); [exact I|]. destruct noreply; [exact I|].
-    destruct (expect_scan (s_pending s) c d serial 0) as [count|] eqn:Ex; [|exact I].
-    destruct (max_replies_per_connection L <=? count) eqn:El; [exact I|]. apply N.leb_gt in El. cbn [fst].
+    destruct (negb (is_active s d)); [exact I|].
+    set (pl := if rserial =? 0 then s_pending s else check_reply (s_pending s) d c rserial).
+    assert (Hpl : forall g, cnt (fun p => p_get p =? g) pl <= max_replies_per_connection L).
+    { intros g. pose proof (li_pend_le _ _ I g) as Y. unfold n_awaiting in Y. unfold pl. destruct (rserial =? 0); [exact Y|].
+      pose proof (check_reply_cnt (fun p => p_get p =? g) (s_pending s) d c rserial). unfold cnt in *. lia. }
+    destruct noreply; [cbn [fst]; apply linv_with_pending; assumption|].
+    destruct (expect_scan pl c d serial 0) as [count|] eqn:Ex; [|cbn [fst]; apply linv_with_pending; assumption].
+    destruct (max_replies_per_connection L <=? count) eqn:El; [cbn [fst]; apply linv_with_pending; assumption|]. apply N.leb_gt in El. cbn [fst].
     apply linv_with_pending; [exact I|]. intros g. rewrite cnt_cons. cbn [p_get].
-    apply expect_scan_count in Ex. pose proof (li_pend_le _ _ I g) as Y. unfold n_awaiting in Y. fold (cnt (fun p => p_get p =? g) (s_pending s)) in Y.
+    apply expect_scan_count in Ex. specialize (Hpl g).
     destruct (c =? g) eqn:Ec; simpl; [|lia]. apply N.eqb_eq in Ec. subst g. lia.
   - cbn [lstep]. destruct (find_conn (s_conns s) d) as [dn|]; [|exact I].
     destruct (negb (c_active dn)); [apply disconnect_linv; exact I|].
